@@ -5,6 +5,7 @@ Core Lean only.
 -/
 import CBV.Model.Common
 import CBV.Gen.Tables
+import CBV.Model.C10Geo
 
 namespace CBV.C10
 
@@ -15,9 +16,6 @@ structure Face (α β : Type) where
   deriving Repr, DecidableEq
 
 variable {α β : Type}
-
-/-- `[xs[i] for i in idx]` (python list comprehension over an index list). -/
-def pick [Inhabited γ] (xs : List γ) (idx : List Nat) : List γ := idx.map (fun i => xs.getD i default)
 
 /-- `Face.invert`: `points.reverse(); edges.reverse(); edges = [edges[i] for i in (1,2,3,0)]`. -/
 def Face.invert [Inhabited β] (f : Face α β) : Face α β :=
@@ -30,16 +28,6 @@ def shiftIdx (count : Int) : List Nat := [0, 1, 2, 3].map (fun i => (((i : Int) 
 def Face.shift [Inhabited α] [Inhabited β] (f : Face α β) (count : Int) : Face α β :=
   { pts := pick f.pts (shiftIdx count), edges := pick f.edges (shiftIdx count) }
 
-/-- Index of the first minimum of a list (what a stable sort by key puts first). -/
-def argminAux : List Rat → Nat → Nat → Rat → Nat
-  | [], _, best, _ => best
-  | d :: ds, i, best, bd => if d < bd then argminAux ds (i + 1) i d else argminAux ds (i + 1) best bd
-
-def argmin (ds : List Rat) : Nat :=
-  match ds with
-  | [] => 0
-  | d :: rest => argminAux rest 1 0 d
-
 /-- `Face.reorient(start_near)` where `dist` gives the (squared) distance of each point to the
     position.  The repaired code shifts by *minus* the index of the closest point. -/
 def Face.reorient [Inhabited α] [Inhabited β] (f : Face α β) (dist : α → Rat) : Face α β :=
@@ -49,17 +37,7 @@ def Face.reorient [Inhabited α] [Inhabited β] (f : Face α β) (dist : α → 
 def Face.conn [Inhabited α] (f : Face α β) : List (β × α × α) :=
   f.edges.zipIdx.map (fun (e, i) => (e, f.pts.getD i default, f.pts.getD ((i + 1) % 4) default))
 
-/-- Raw (unnormalised) normal as coded in `Face.normal`: the sum of the cross products of
-    consecutive centre-to-corner vectors, times 16 to avoid the divisions (positive factor). -/
-def normalRaw (p0 p1 p2 p3 : V3) : V3 :=
-  let c := (p0 + p1 + p2 + p3)
-  let s0 := V3.smul 4 p0 - c
-  let s1 := V3.smul 4 p1 - c
-  let s2 := V3.smul 4 p2 - c
-  let s3 := V3.smul 4 p3 - c
-  V3.cross s0 s1 + V3.cross s1 s2 + V3.cross s2 s3 + V3.cross s3 s0
-
-/-! ### Addressing through the generated tables -/
+/-! ### Addressing: the tables of `util/constants.py`, the code of `util/tools.py` and `Operation` -/
 
 def sideCorners (side : String) : Option (List Nat) := (CBV.Gen.faceMap.lookup side)
 
@@ -68,8 +46,41 @@ def indexFromSide (side : String) : Option Nat :=
   let i := CBV.Gen.sidesMap.idxOf side
   if i < CBV.Gen.sidesMap.length then some i else none
 
-/-- `tools.edge_map[c1][c2]` → (side, start corner). -/
-def edgeLoc (c1 c2 : Nat) : Option (String × Nat) :=
+/-- `EdgeLocation.start_corner`: `diff = abs(corner_1 - corner_2)`; `diff in (1, 4)` → `corner_min % 4`;
+    `diff == 3` → `corner_max % 4`; otherwise `CornerPairError` -/
+def startCorner (c1 c2 : Nat) : Option Nat :=
+  let diff := if c1 ≤ c2 then c2 - c1 else c1 - c2
+  if diff = 1 ∨ diff = 4 then some (min c1 c2 % 4)
+  else if diff = 3 then some (max c1 c2 % 4)
+  else none
+
+/-- the guard of `Frame.add_beam`: `{corner_1, corner_2} in valid_pairs` (= the sets of `constants.EDGE_PAIRS`) -/
+def validPair (a b : Nat) : Bool :=
+  CBV.Gen.edgePairs.any (fun p => (p.1 == a && p.2 == b) || (p.1 == b && p.2 == a))
+
+/-- the module-level loop of `util/tools.py` that fills `edge_map`:
+    `add_beam(a, b, EdgeLocation(l1, l2, side))` as `(a, b, l1, l2, side)` in execution order -/
+def edgeMapInserts : List (Nat × Nat × Nat × Nat × String) :=
+  (List.range 4).flatMap (fun i =>
+    let c1 := i
+    let c2 := (i + 1) % 4
+    [(c1, c2, c1, c2, "bottom"), (c1 + 4, c2 + 4, c1 + 4, c2 + 4, "top"),
+     (c1, c1 + 4, c1, c1 + 4, CBV.Gen.sidesMap.getD i "?")])
+
+/-- `edge_map[c1][c2]`: `add_beam` stores symmetrically, a later insertion overwrites; a pair nothing was
+    stored for has no entry (`KeyError`, or `None` whose `.start_corner` fails) -/
+def edgeMapGet (c1 c2 : Nat) : Option (Nat × Nat × String) :=
+  (edgeMapInserts.reverse.find? (fun e =>
+    validPair e.1 e.2.1 && ((e.1 == c1 && e.2.1 == c2) || (e.1 == c2 && e.2.1 == c1)))).map (fun e => e.2.2)
+
+/-- `loc = edge_map[c1][c2]; (loc.side, loc.start_corner)` -/
+def edgeLoc (c1 c2 : Nat) : Option (String × Nat) := do
+  let (l1, l2, side) ← edgeMapGet c1 c2
+  let sc ← startCorner l1 l2
+  some (side, sc)
+
+/-- the same read from the table the translator dumps from the imported `tools.edge_map` -/
+def edgeLocTable (c1 c2 : Nat) : Option (String × Nat) :=
   (CBV.Gen.edgeLoc.find? (fun e => e.1 == c1 && e.2.1 == c2)).map (fun e => e.2.2)
 
 /-- Storage slot of an edge datum inside an operation. -/
@@ -91,6 +102,24 @@ def Slot.corners : Slot → Nat × Nat
   | .top i => (i + 4, (i + 1) % 4 + 4)
   | .side i => (i, i + 4)
 
+/-! the refusing guards, as written (`true` = the call raises) -/
+
+/-- `Face.add_edge`, `Face.project_edge`, `Operation.add_side_edge`: `corner < 0 or corner > 3` -/
+def guardCorner4 (c : Int) : Bool := c < 0 || c > 3
+/-- `Operation.project_corner`: `corner < 0 or corner > 7` -/
+def guardCorner8 (c : Int) : Bool := c < 0 || c > 7
+/-- `Operation.project_edge`: `not (0 <= corner_1 < 8 and 0 <= corner_2 < 8)` -/
+def guardEdge (c1 c2 : Int) : Bool := !((0 ≤ c1 && c1 < 8) && (0 ≤ c2 && c2 < 8))
+
+/-- `Operation.project_corner`: `corner > 3` → `top_face.points[corner - 4]`, else `bottom_face.points[corner]` -/
+def cornerTarget (c : Nat) : Bool × Nat := if c > 3 then (true, c - 4) else (false, c)
+
+/-- `Operation.get_patches_at_corner`: bottom face for `corner < 4`, `index = corner % 4`, side patches `index`
+    and `(index + 3) % 4` -/
+def cornerSources (c : Nat) : Bool × Nat × Nat :=
+  let index := c % 4
+  (c < 4, index, (index + 3) % 4)
+
 /-- The operation as far as addressing is concerned: names/labels stored per slot. -/
 structure Op where
   bottomPatch : Option String := none
@@ -103,6 +132,8 @@ structure Op where
   topEdges : List (List String) := [[], [], [], []]
   sideEdges : List (List String) := [[], [], [], []]
   corners : List (List String) := [[], [], [], [], [], [], [], []]
+  /-- side edge data that are neither lines nor projections (the `Angle` data a `Revolve` puts there) -/
+  sideOther : List (Option String) := [none, none, none, none]
   deriving Repr, DecidableEq
 
 def insertSorted (l : String) : List String → List String
@@ -114,17 +145,31 @@ def addLabel (ls : List String) (l : String) : List String := insertSorted l ls
 
 def modifyAt (xs : List γ) (i : Nat) (f : γ → γ) : List γ := xs.modify i f
 
+/-- `edges[i] = self._project_update(edges[i], label)`: a `Project` gets the label added, anything else is
+    replaced by a new `Project(label)` -/
 def Op.projEdgeSlot (o : Op) (s : Slot) (l : String) : Op :=
   match s with
   | .bottom i => { o with bottomEdges := modifyAt o.bottomEdges i (addLabel · l) }
   | .top i => { o with topEdges := modifyAt o.topEdges i (addLabel · l) }
-  | .side i => { o with sideEdges := modifyAt o.sideEdges i (addLabel · l) }
+  | .side i => { o with sideEdges := modifyAt o.sideEdges i (addLabel · l), sideOther := o.sideOther.set i none }
 
 def Op.projectEdge (o : Op) (c1 c2 : Nat) (l : String) : Option Op :=
   (slotOfEdge c1 c2).map (fun s => o.projEdgeSlot s l)
 
+/-- `points[c].project(label)` on the operation's points `bottom_face.points + top_face.points` -/
 def Op.projectCorner (o : Op) (c : Nat) (l : String) : Op :=
   { o with corners := modifyAt o.corners c (· ++ [l]) }
+
+/-- `self.<top|bottom>_face.points[i].project(label)` -/
+def Op.projectPoint (o : Op) (top : Bool) (i : Nat) (l : String) : Op :=
+  o.projectCorner (if top then i + 4 else i) l
+
+/-- `Operation.project_corner(corner, label)` with its guard and its choice of face -/
+def Op.projectCorner? (o : Op) (c : Int) (l : String) : Option Op :=
+  if guardCorner8 c then none
+  else
+    let t := cornerTarget c.toNat
+    some (o.projectPoint t.1 t.2 l)
 
 def Op.setPatch (o : Op) (side name : String) : Option Op :=
   if side = "bottom" then some { o with bottomPatch := some name }
@@ -148,52 +193,95 @@ def Op.setEdgeSlot (o : Op) (s : Slot) (ls : List String) : Op :=
   match s with
   | .bottom i => { o with bottomEdges := o.bottomEdges.set i ls }
   | .top i => { o with topEdges := o.topEdges.set i ls }
-  | .side i => { o with sideEdges := o.sideEdges.set i ls }
+  | .side i => { o with sideEdges := o.sideEdges.set i ls, sideOther := o.sideOther.set i none }
 
 /-- `Face.remove_edges(corners)` on the bottom or the top face: `add_edge(corner, None)` for each listed corner -/
 def Op.removeEdges (o : Op) (bottom : Bool) (cs : List Nat) : Op :=
   cs.foldl (fun o c => o.setEdgeSlot (if bottom then .bottom c else .top c) []) o
 
-def Op.projectFace (o : Op) (bottom : Bool) (l : String) (edges points : Bool) : Op :=
+/-- one statement of `Operation.project_side` / `Face.project` that touches an edge or a point -/
+inductive Step where
+  | pedge (c1 c2 : Nat)              -- `self.project_edge(c1, c2, label)`
+  | sideEdge (i : Nat)               -- `self.side_edges[i] = self._project_update(self.side_edges[i], label)`
+  | faceEdge (top : Bool) (i : Nat)  -- `self.<face>.project_edge(i, label)`
+  | point (top : Bool) (i : Nat)     -- `self.<face>.points[i].project(label)`
+  deriving DecidableEq, Repr
+
+/-- how the translator (`cbv/tables/c10.py`) describes the same statement read from the source -/
+def Step.descr : Step → String × List Nat
+  | .pedge a b => ("project_edge", [a, b])
+  | .sideEdge i => ("side_edges=", [i, i])
+  | .faceEdge true i => ("top_face.project_edge", [i])
+  | .faceEdge false i => ("bottom_face.project_edge", [i])
+  | .point true i => ("top_face.points", [i])
+  | .point false i => ("bottom_face.points", [i])
+
+/-- `Operation.project_side`, body of `if edges:` for `index_1` (with `index_2 = (index_1 + 1) % 4`) -/
+def sideStepsE (i1 : Nat) : List Step :=
+  let i2 := (i1 + 1) % 4
+  [.pedge i1 i2, .pedge (i1 + 4) (i2 + 4), .sideEdge i1, .sideEdge i2, .faceEdge true i1, .faceEdge false i1]
+
+/-- `Operation.project_side`, body of `if points:`: `for face in (top, bottom): for point_index in (index_1, index_2)` -/
+def sideStepsP (i1 : Nat) : List Step :=
+  let i2 := (i1 + 1) % 4
+  [.point true i1, .point true i2, .point false i1, .point false i2]
+
+/-- `Face.project`: `for i in range(4): self.project_edge(i, label)` / `self.points[i].project(label)` -/
+def faceStepsE (top : Bool) : List Step := (List.range 4).map (.faceEdge top)
+def faceStepsP (top : Bool) : List Step := (List.range 4).map (.point top)
+
+def Op.applyStep (o : Op) (l : String) : Step → Option Op
+  | .pedge a b => if guardEdge a b then none else o.projectEdge a b l
+  | .sideEdge i => some (o.projEdgeSlot (.side i) l)
+  | .faceEdge top i => if guardCorner4 i then none else some (o.projEdgeSlot (if top then .top i else .bottom i) l)
+  | .point top i => some (o.projectPoint top i l)
+
+def Op.applySteps (o : Op) (l : String) (ss : List Step) : Option Op :=
+  ss.foldlM (fun o s => o.applyStep l s) o
+
+/-- `Face.project(label, edges, points)` on the bottom or the top face -/
+def Op.projectFace (o : Op) (bottom : Bool) (l : String) (edges points : Bool) : Option Op :=
   let o := if bottom then { o with bottomProj := some l } else { o with topProj := some l }
-  let o := if edges then
-      [0, 1, 2, 3].foldl (fun o i => o.projEdgeSlot (if bottom then .bottom i else .top i) l) o
-    else o
-  if points then
-    [0, 1, 2, 3].foldl (fun o i => o.projectCorner (if bottom then i else i + 4) l) o
-  else o
+  o.applySteps l ((if edges then faceStepsE (!bottom) else []) ++ (if points then faceStepsP (!bottom) else []))
 
 /-- `Operation.project_side`. -/
 def Op.projectSide (o : Op) (side l : String) (edges points : Bool) : Option Op :=
-  if side = "bottom" then some (o.projectFace true l edges points)
-  else if side = "top" then some (o.projectFace false l edges points)
+  if side = "bottom" then o.projectFace true l edges points
+  else if side = "top" then o.projectFace false l edges points
   else do
     let i1 ← indexFromSide side
-    let i2 := (i1 + 1) % 4
     let o := { o with sideProj := o.sideProj.set i1 (some l) }
-    let o ← if edges then do
-        let o ← o.projectEdge i1 i2 l
-        let o ← o.projectEdge (i1 + 4) (i2 + 4) l
-        let o := o.projEdgeSlot (.side i1) l
-        let o := o.projEdgeSlot (.side i2) l
-        let o := o.projEdgeSlot (.top i1) l
-        some (o.projEdgeSlot (.bottom i1) l)
-      else some o
-    if points then
-      -- `for face in (top, bottom): for point_index in (index_1, index_2)`
-      some ([i1 + 4, i2 + 4, i1, i2].foldl (fun o c => o.projectCorner c l) o)
-    else some o
+    o.applySteps l ((if edges then sideStepsE i1 else []) ++ (if points then sideStepsP i1 else []))
 
 /-- the side names that `Operation.get_patches_at_corner` consults for a corner: bottom or top, then the
     side of that index and the previous one -/
 def sidesAtCorner (c : Nat) : List String :=
-  [if c < 4 then "bottom" else "top", CBV.Gen.sidesMap.getD (c % 4) "?", CBV.Gen.sidesMap.getD ((c + 3) % 4) "?"]
+  let s := cornerSources c
+  [if s.1 then "bottom" else "top", CBV.Gen.sidesMap.getD s.2.1 "?", CBV.Gen.sidesMap.getD s.2.2 "?"]
 
 /-- `Operation.get_patches_at_corner` (as a duplicate-free list in consultation order) -/
 def Op.patchesAtCorner (o : Op) (c : Nat) : List String :=
-  let first := if c < 4 then o.bottomPatch else o.topPatch
-  let cands := [first, o.sidePatches.getD (c % 4) none, o.sidePatches.getD ((c + 3) % 4) none]
+  let s := cornerSources c
+  let first := if s.1 then o.bottomPatch else o.topPatch
+  let cands := [first, o.sidePatches.getD s.2.1 none, o.sidePatches.getD s.2.2 none]
   (cands.filterMap id).eraseDups
+
+/-- `Revolve.__init__`: `for i in range(4): self.add_side_edge(i, edges.Angle(...))` -/
+def revolveSideEdges : List (Nat × String) := (List.range 4).map (fun i => (i, "edges.Angle"))
+
+def Op.revolveInit (o : Op) : Op :=
+  revolveSideEdges.foldl (fun o (e : Nat × String) =>
+    { (o.setEdgeSlot (.side e.1) []) with sideOther := (o.setEdgeSlot (.side e.1) []).sideOther.set e.1 (some e.2) }) o
+
+/-- `Wedge.__init__`: a `Revolve`, then `set_patch("top", "wedge_front")`, `set_patch("bottom", "wedge_back")` -/
+def wedgePatches : List (String × String) := [("top", "wedge_front"), ("bottom", "wedge_back")]
+
+def Op.wedgeInit (o : Op) : Option Op :=
+  wedgePatches.foldlM (fun o (e : String × String) => o.setPatch e.1 e.2) o.revolveInit
+
+/-- `Wedge.set_inner_patch` / `set_outer_patch`: the side they stand for -/
+def wedgeNamed (method : String) : Option String :=
+  if method = "set_inner_patch" then some "front" else if method = "set_outer_patch" then some "back" else none
 
 /-- What the assembled block shows: patch name per side, projection per side, labels per
     undirected block edge (ascending corner pair), labels per corner. -/
@@ -202,6 +290,7 @@ structure View where
   faces : List (String × List Nat)          -- (label, corners): four sides in SIDES_MAP order, bottom, top
   edges : List (Nat × Nat × List String)    -- projected edges (c1 < c2), sorted
   corners : List (Nat × List String)        -- projected corners
+  others : List (Nat × Nat × String) := []  -- side edges holding other data (corner pair of `Operation.edges`, class)
   deriving Repr, DecidableEq
 
 def insPair (a : Nat × Nat × List String) : List (Nat × Nat × List String) → List (Nat × Nat × List String)
@@ -228,7 +317,8 @@ def Op.view (o : Op) : View :=
         some (min a b, max a b, l))
   let eds := sortPairs (slotEdges .bottom o.bottomEdges ++ slotEdges .top o.topEdges ++ slotEdges .side o.sideEdges)
   let cor := o.corners.zipIdx.filterMap (fun (l, i) => if l.isEmpty then none else some (i, l))
-  { patches := pat, faces := fac, edges := eds, corners := cor }
+  let oth := o.sideOther.zipIdx.filterMap (fun (k, i) => k.map (fun k => ((Slot.side i).corners.1, (Slot.side i).corners.2, k)))
+  { patches := pat, faces := fac, edges := eds, corners := cor, others := oth }
 
 /-! ### Line protocol -/
 
@@ -238,7 +328,8 @@ def showView (v : View) : String :=
   let facs := ";".intercalate (v.faces.map (fun (n, c) => n ++ ":" ++ q c))
   let eds := ";".intercalate (v.edges.map (fun (a, b, l) => s!"{a}-{b}:" ++ "+".intercalate l))
   let cor := ";".intercalate (v.corners.map (fun (c, l) => s!"{c}:" ++ "+".intercalate l))
-  s!"P[{pats}] F[{facs}] E[{eds}] C[{cor}]"
+  let oth := ";".intercalate (v.others.map (fun (a, b, k) => s!"{a}-{b}:{k}"))
+  s!"P[{pats}] F[{facs}] E[{eds}] C[{cor}] X[{oth}]"
 
 /-- `Operation.get_face(side)` for every side: the corners of `FACE_MAP[side]`, whatever was called before -/
 def showFaces : String :=
@@ -251,21 +342,37 @@ def applyCall (o : Op) (call : String) : Option Op :=
   match call.splitOn ":" with
   | ["patch", side, name] => o.setPatch side name
   | ["pside", side, l, e, p] => o.projectSide side l (e == "1") (p == "1")
-  | ["pedge", c1, c2, l] => do o.projectEdge (← c1.toNat?) (← c2.toNat?) l
-  | ["pcorner", c, l] => do
-      let c ← c.toNat?
-      if c < 8 then some (o.projectCorner c l) else none
+  | ["pedge", c1, c2, l] => do
+      let c1 ← c1.toInt?
+      let c2 ← c2.toInt?
+      if guardEdge c1 c2 then none else o.projectEdge c1.toNat c2.toNat l
+  | ["pcorner", c, l] => do o.projectCorner? (← c.toInt?) l
   | ["pcornerL", c, _listId, l] => do
       -- the same label list object handed to several calls: the operation must behave as for separate lists
-      let c ← c.toNat?
-      if c < 8 then some (o.projectCorner c l) else none
+      o.projectCorner? (← c.toInt?) l
+  | ["base", "loft"] => some o
+  | ["base", "box"] => some o
+  | ["base", "extrude"] => some o
+  | ["base", "revolve"] => some o.revolveInit
+  | ["base", "wedge"] => o.wedgeInit
+  | ["wedgepatch", method, name] => do o.setPatch (← wedgeNamed method) name
+  | ["sideedge", i, l] => do
+      -- `Operation.add_side_edge(i, Project(l))`
+      let i ← i.toInt?
+      if guardCorner4 i then none else some (o.setEdgeSlot (.side i.toNat) [l])
+  | ["faceedge", face, i, l] => do
+      -- `Face.add_edge(i, Project(l))` on the bottom / top face
+      let i ← i.toInt?
+      if guardCorner4 i then none
+      else if face = "bottom" then some (o.setEdgeSlot (.bottom i.toNat) [l])
+      else if face = "top" then some (o.setEdgeSlot (.top i.toNat) [l]) else none
   | ["nface", _viewer] => some o   -- `get_normal_face` only reads the operation
   | ["patchL", sides, name] =>
       o.setPatchList (if sides = "-" then [] else sides.splitOn "+") name
   | ["redges", face, cs] => do
       -- `cs`: "all" (argument omitted), "-" (empty list) or corner numbers joined by "+"
       let cs ← if cs = "all" then some [0, 1, 2, 3] else if cs = "-" then some [] else (cs.splitOn "+").mapM (·.toNat?)
-      if cs.all (· < 4) then
+      if cs.all (fun (c : Nat) => !guardCorner4 c) then
         if face = "bottom" then some (o.removeEdges true cs)
         else if face = "top" then some (o.removeEdges false cs) else none
       else none
@@ -273,7 +380,7 @@ def applyCall (o : Op) (call : String) : Option Op :=
       -- one `Project` object put on two edges by corner numbers
       let slot (s : String) : Option Slot := do
         let i ← (s.drop 1).toString.toNat?
-        if i < 4 then
+        if !guardCorner4 (i : Nat) then
           match s.take 1 |>.toString with
           | "b" => some (.bottom i) | "t" => some (.top i) | "s" => some (.side i) | _ => none
         else none
@@ -321,6 +428,9 @@ def handleNormal (args : List String) : Option String :=
 def handle (op : String) (args : List String) : Option String :=
   match op with
   | "c10.normal" => handleNormal args
+  | "c10.geo" => handleGeo args
+  | "c10.box" => handleBox args
+  | "c10.extrude" => handleExtrude args
   | "c10.addr" => handleAddr args
   | "c10.face" => handleFace args
   | _ => none
